@@ -8,6 +8,7 @@ import (
 	"errors"
 	"log/slog"
 	"sync"
+	"sync/atomic"
 	"time"
 
 	"github.com/cinar/indicator/v2/helper"
@@ -63,7 +64,7 @@ func (s *Sync) Run(source, target Repository, defaultStartDate time.Time) error 
 	s.Logger.Info("Start syncing.", "assets", len(s.Assets))
 	jobs := helper.SliceToChan(s.Assets)
 
-	hasErrors := false
+	var hasErrors atomic.Bool
 	wg := &sync.WaitGroup{}
 
 	for i := 0; i < s.Workers; i++ {
@@ -85,14 +86,14 @@ func (s *Sync) Run(source, target Repository, defaultStartDate time.Time) error 
 				snapshots, err := source.GetSince(name, lastDate)
 				if err != nil {
 					s.Logger.Error("GetSince failed.", "asset", name, "error", err)
-					hasErrors = true
+					hasErrors.Store(true)
 					continue
 				}
 
 				err = target.Append(name, snapshots)
 				if err != nil {
 					s.Logger.Error("Append failed.", "asset", name, "error", err)
-					hasErrors = true
+					hasErrors.Store(true)
 					continue
 				}
 
@@ -103,7 +104,7 @@ func (s *Sync) Run(source, target Repository, defaultStartDate time.Time) error 
 
 	wg.Wait()
 
-	if hasErrors {
+	if hasErrors.Load() {
 		return errors.New("has errors")
 	}
 
